@@ -74,10 +74,13 @@ type c18FlowCase struct {
 	Salts     []byte
 	UseStream bool
 	Stagger   bool
+	// Script "random": the generated release script. "settings-release": the connection window is opened, MOSN uses up
+	// the small initial stream windows, then a larger INITIAL_WINDOW_SIZE is the only release the streams get.
+	Script string
 }
 
 func (cs *c18FlowCase) String() string {
-	return fmt.Sprintf("case=%d dir=%s initial_window=%d max_frame=%d bodies=%v use_stream=%v stagger=%v", cs.No, cs.Dir, cs.W0, cs.MaxFrame, cs.Sizes, cs.UseStream, cs.Stagger)
+	return fmt.Sprintf("case=%d dir=%s script=%s initial_window=%d max_frame=%d bodies=%v use_stream=%v stagger=%v", cs.No, cs.Dir, cs.Script, cs.W0, cs.MaxFrame, cs.Sizes, cs.UseStream, cs.Stagger)
 }
 
 type c18PStream struct {
@@ -169,7 +172,12 @@ func (p *c18Peer) writeFrame(f func() error) error {
 	p.nc.SetWriteDeadline(time.Now().Add(20 * time.Second))
 	err := f()
 	if err != nil && p.werr == nil {
-		p.werr = err // the ledger may now hold credit MOSN never received: the case cannot be judged for completion
+		p.mu.Lock()
+		closing := p.closing
+		p.mu.Unlock()
+		if !closing {
+			p.werr = err // the ledger may now hold credit MOSN never received: the case cannot be judged for completion
+		}
 	}
 	return err
 }
@@ -498,7 +506,7 @@ func (p *c18Peer) drainedLocked() bool {
 
 const (
 	c18SyncWatchdog  = 20 * time.Second
-	c18StallWatchdog = 10 * time.Second
+	c18StallWatchdog = 8 * time.Second
 	c18DoneWatchdog  = 45 * time.Second
 )
 
@@ -529,6 +537,43 @@ func c18RunPeerScript(p *c18Peer, rng *lab.Rand, start func(i int) bool) (verdic
 	tiny := rng.PickInt(0, 3, 8, 20)
 	maxSteps := tiny + rng.Range(5, 40)
 	changes := 0
+	if cs.Script == "settings-release" {
+		maxSteps = 0
+		p.sendConnUpdate(total + int64(rng.PickInt(0, 1, 1000)))
+		p.mu.Lock()
+		res := p.settle(func() bool {
+			for _, st := range p.streams {
+				if !st.known {
+					return false
+				}
+			}
+			return p.drainedLocked()
+		})
+		p.drains++
+		p.mu.Unlock()
+		if res != "ok" {
+			return "MOSN did not use the initial window within watchdog"
+		}
+		big := int64(0)
+		for _, s := range cs.Sizes {
+			if int64(s) > big {
+				big = int64(s)
+			}
+		}
+		big += int64(rng.PickInt(0, 1, 1000, 100000))
+		// schedule shaping only (no verdict depends on it): give the senders time to park on their exhausted windows
+		p.mu.Lock()
+		pings := p.pingAcks
+		p.mu.Unlock()
+		p.writeFrame(func() error { return p.fr.WritePing(false, [8]byte{'p', 'a', 'r', 'k'}) })
+		p.mu.Lock()
+		p.waitFor(c18SyncWatchdog, func() bool { return p.pingAcks > pings })
+		p.mu.Unlock()
+		time.Sleep(50 * time.Millisecond)
+		if !p.sendInitialWindow(big) {
+			return "harness: INITIAL_WINDOW_SIZE change not possible"
+		}
+	}
 	for step := 0; step < maxSteps; step++ {
 		p.mu.Lock()
 		if p.dead != nil || p.violated {
@@ -1052,16 +1097,20 @@ func c18Flow(c *lab.Ctx) {
 		"frame-size and window boundaries) x buffered / pipe-fed (http2 stream mode) bodies x a release script per case: WINDOW_UPDATE " +
 		"increments of 1, small odd, random, exact need (+-1), half, up to 2^31-1 on random streams and the connection, on ended streams, " +
 		"up to 3 INITIAL_WINDOW_SIZE changes mid-stream (also to 0 and below what was used: negative windows), waits until MOSN has " +
-		"used up the released window, staggered stream starts; then the rest is released and completion is judged. The ledger is " +
+		"used up the released window, staggered stream starts; then the rest is released and completion is judged. 2 of 25 cases are the " +
+		"scripted 'settings-release' (small initial window used up, then a larger INITIAL_WINDOW_SIZE is the streams' only release). " +
+		"A stall is a verdict only in this form, 3 of 3 runs: PING acknowledged (all frames processed), windows open, not one DATA frame for " +
+		"the stall watchdog, progress only after an unneeded 1-byte connection WINDOW_UPDATE; any other watchdog firing is inconclusive. The ledger is " +
 		"updated before every WINDOW_UPDATE is written. distinct = (direction, window class, frame size, #streams class, body classes, " +
 		"stream mode, settings changes, negative window seen)")
-	n := c.Pick(260, 3000)
+	n := c.Pick(500, 4000)
 	maxBody := c.Pick(1<<20, 4<<20)
 	replay := c.ReplayCase()
 	var mu sync.Mutex
 	var okCases, inconcl, dataFrames, updates, changes, drains, negative, bytesTotal int64
 	byDir := map[string]int64{}
-	workers := 8
+	workers := 16
+	confirmed := 0 // stall verdicts confirmed 3 of 3 in this run
 	sem := make(chan struct{}, workers)
 	var wg sync.WaitGroup
 	for i := 0; i < n; i++ {
@@ -1082,27 +1131,51 @@ func c18Flow(c *lab.Ctx) {
 			cs.Salts = rng.Bytes(ns)
 			cs.UseStream = rng.Chance(1, 4)
 			cs.Stagger = rng.Chance(1, 3)
+			cs.Script = "random"
+			if i%25 == 6 || i%25 == 19 { // one of each direction per 25 cases
+				cs.Script = "settings-release"
+				cs.W0 = int64(rng.PickInt(0, 1, 100, 1000))
+				cs.Stagger = false
+				for k := range cs.Sizes {
+					if int64(cs.Sizes[k]) <= cs.W0 {
+						cs.Sizes[k] = int(cs.W0) + rng.Range(1, 100000)
+					}
+				}
+			}
 			c.Case("%s", cs.String())
 			// the release script draws from its own stream, so that a reproduction starts identically
 			verdict, p := c18RunFlowCase(c, cs, c.Rand(fmt.Sprintf("flow-script/%d", i)))
 			if verdict == "stalled-until-nudge" {
-				// a verdict that involves a watchdog must reproduce: the same case twice more, same seed
+				mu.Lock()
+				already := confirmed >= 2
+				mu.Unlock()
+				// a verdict that involves a watchdog must reproduce: the same case twice more, same script seed. Once the
+				// signature has been confirmed twice in this run, further occurrences are only added to its count.
 				rep := 1
-				for t := 0; t < 2; t++ {
+				for t := 0; t < 2 && !already; t++ {
 					c.Case("%s (reproduction %d)", cs.String(), t+1)
 					if v2, _ := c18RunFlowCase(c, cs, c.Rand(fmt.Sprintf("flow-script/%d", i))); v2 == "stalled-until-nudge" {
 						rep++
 					}
 				}
 				p.mu.Lock()
-				if rep == 3 {
-					p.violate("stalled-with-open-window", "3 of 3 runs: MOSN had processed all the peer's frames (PING acknowledged), every unfinished stream and the connection had window, "+
+				if rep == 3 || already {
+					how := "3 of 3 runs"
+					if already {
+						how = "(signature confirmed 3 of 3 on two other cases of this run; this occurrence was not re-run)"
+					}
+					p.violate("stalled-with-open-window", how+": MOSN had processed all the peer's frames (PING acknowledged), every unfinished stream and the connection had window, "+
 						"and yet not one DATA frame arrived during the stall watchdog; sending continued only after a further 1-byte connection WINDOW_UPDATE that was not needed")
 					verdict = "violated"
 				} else {
 					verdict = fmt.Sprintf("stall ended by a nudge, reproduced only %d of 3", rep)
 				}
 				p.mu.Unlock()
+				if rep == 3 {
+					mu.Lock()
+					confirmed++
+					mu.Unlock()
+				}
 			}
 			if p != nil {
 				p.wmu.Lock()
@@ -1153,7 +1226,7 @@ func c18Flow(c *lab.Ctx) {
 				case 0, 1, 100, 65535, c18MaxWindow:
 					wc = fmt.Sprint(cs.W0)
 				}
-				c.Distinct(fmt.Sprintf("%s|w=%s|f=%d|n=%s|%s|stream=%v|chg=%d|neg=%v|stagger=%v", cs.Dir, wc, cs.MaxFrame, c18LenClass(len(cs.Sizes)), strings.Join(sc, ","), cs.UseStream, ch, neg, cs.Stagger))
+				c.Distinct(fmt.Sprintf("%s|%s|w=%s|f=%d|n=%s|%s|stream=%v|chg=%d|neg=%v|stagger=%v", cs.Dir, cs.Script, wc, cs.MaxFrame, c18LenClass(len(cs.Sizes)), strings.Join(sc, ","), cs.UseStream, ch, neg, cs.Stagger))
 			}
 			switch verdict {
 			case "ok":
